@@ -157,8 +157,54 @@ func checkReachSearchLoop(r *Run, p *packages.Package, decls map[string]*ast.Fun
 		r.Undecide("C15-R2: ReachabilityCache.componentReachDFS not found")
 		return
 	}
+	// the function is read with its package-level and receiver helpers inlined (a branch that merges the cached reach
+	// through a helper is the same branch) and with tagless switches spelled as if/else chains
+	vocabulary := map[string]bool{"cacheComponentReach": true, "cachedComponentReach": true, "newReachCursor": true, "newRootReachCursor": true}
+	// a helper is worth reading only if it does something the rule speaks about: reads or writes the cache, creates a
+	// cursor, merges a reach set, or writes a boolean mark of a cursor
+	var relevant func(hd *ast.FuncDecl, depth int) bool
+	relevant = func(hd *ast.FuncDecl, depth int) bool {
+		found := false
+		ast.Inspect(hd.Body, func(n ast.Node) bool {
+			switch x := n.(type) {
+			case *ast.CallExpr:
+				if fn := calleeOf(info, x); fn != nil {
+					if vocabulary[fn.Name()] {
+						found = true
+					} else if fn.Pkg() == p.Types && depth < 2 {
+						if inner := decls[declKeyOf(fn)]; inner != nil && inner != hd && inner.Body != nil && relevant(inner, depth+1) {
+							found = true
+						}
+					}
+				}
+				if sel, ok := ast.Unparen(x.Fun).(*ast.SelectorExpr); ok && sel.Sel.Name == "Or" && len(x.Args) == 1 {
+					found = true
+				}
+			case *ast.AssignStmt:
+				for _, l := range x.Lhs {
+					if sel, ok := ast.Unparen(l).(*ast.SelectorExpr); ok {
+						if sl := info.Selections[sel]; sl != nil && sl.Kind() == types.FieldVal {
+							if b, ok := sl.Obj().Type().Underlying().(*types.Basic); ok && b.Kind() == types.Bool {
+								found = true
+							}
+						}
+					}
+				}
+			}
+			return !found
+		})
+		return found
+	}
+	inlBody, _ := inlineCallsOpt(p, fd, fd.Body, 2, func(fn *types.Func) bool {
+		if vocabulary[fn.Name()] {
+			return true
+		}
+		hd := decls[declKeyOf(fn)]
+		return hd == nil || hd.Body == nil || !relevant(hd, 0)
+	}, true)
+	bodyList := switchToIfChain(inlBody.List)
 	var loop *ast.ForStmt
-	for _, st := range fd.Body.List {
+	for _, st := range bodyList {
 		if f, ok := st.(*ast.ForStmt); ok {
 			loop = f
 		}
@@ -168,17 +214,28 @@ func checkReachSearchLoop(r *Run, p *packages.Package, decls map[string]*ast.Fun
 		return
 	}
 	var chain *ast.IfStmt
-	for _, st := range loop.Body.List {
+	chainIdx := -1
+	for i, st := range loop.Body.List {
 		if ifs, ok := st.(*ast.IfStmt); ok {
-			chain = ifs
+			chain, chainIdx = ifs, i
 		}
 	}
 	if chain == nil {
 		r.Undecide("C15-R2: the search loop has no branch on the next adjacent component")
 		return
 	}
-	// the head: `if next, hasNext := cursor.NextAdjacent(); !hasNext { … }`
+	// the head: `if next, hasNext := cursor.NextAdjacent(); !hasNext { … }`, or the same assignment as a statement of its
+	// own in front of the chain
 	as, ok := chain.Init.(*ast.AssignStmt)
+	if !ok {
+		for _, st := range loop.Body.List[:chainIdx] {
+			if a, isAssign := st.(*ast.AssignStmt); isAssign && len(a.Lhs) == 2 && len(a.Rhs) == 1 && a.Tok == token.DEFINE {
+				if _, isCall := ast.Unparen(a.Rhs[0]).(*ast.CallExpr); isCall {
+					as, ok = a, true
+				}
+			}
+		}
+	}
 	if !ok || len(as.Lhs) != 2 {
 		r.Undecide("C15-R2: the loop's first branch does not take (next, hasNext) from the cursor")
 		return
@@ -209,7 +266,7 @@ func checkReachSearchLoop(r *Run, p *packages.Package, decls map[string]*ast.Fun
 	}
 	// R2: every cache write of the function is inside the exhausted branch
 	var writes []*ast.CallExpr
-	ast.Inspect(fd.Body, func(n ast.Node) bool {
+	ast.Inspect(&ast.BlockStmt{List: bodyList}, func(n ast.Node) bool {
 		if c, ok := n.(*ast.CallExpr); ok {
 			if fn := calleeOf(info, c); fn != nil && fn.Name() == "cacheComponentReach" {
 				writes = append(writes, c)
@@ -224,7 +281,7 @@ func checkReachSearchLoop(r *Run, p *packages.Package, decls map[string]*ast.Fun
 	var gate *types.Var // the boolean field whose negation guards the cache write
 	for i, w := range writes {
 		construct := "componentReachDFS:cache-write#" + itoa(i+1)
-		inside := w.Pos() >= chain.Body.Pos() && w.End() <= chain.Body.End()
+		inside := nodeContains(chain.Body, w)
 		if inside {
 			r.Pass("C15-R2-cache-finished-cursor", construct, w.Pos(), "the cache is written in the branch where the cursor has no adjacent component left")
 		} else {
@@ -233,7 +290,7 @@ func checkReachSearchLoop(r *Run, p *packages.Package, decls map[string]*ast.Fun
 		// the guard of the write
 		ast.Inspect(chain.Body, func(n ast.Node) bool {
 			ifs, ok := n.(*ast.IfStmt)
-			if !ok || w.Pos() < ifs.Body.Pos() || w.End() > ifs.Body.End() {
+			if !ok || !nodeContains(ifs.Body, w) {
 				return true
 			}
 			if u, ok := ast.Unparen(ifs.Cond).(*ast.UnaryExpr); ok && u.Op == token.NOT {
@@ -250,7 +307,7 @@ func checkReachSearchLoop(r *Run, p *packages.Package, decls map[string]*ast.Fun
 
 	// R3: terminal branches of the rest of the chain
 	var rootObj types.Object
-	ast.Inspect(fd.Body, func(n ast.Node) bool {
+	ast.Inspect(&ast.BlockStmt{List: bodyList}, func(n ast.Node) bool {
 		if vs, ok := n.(*ast.ValueSpec); ok {
 			for i, nm := range vs.Names {
 				if i < len(vs.Values) && isCall(vs.Values[i], "newRootReachCursor") != nil {
@@ -278,34 +335,41 @@ func checkReachSearchLoop(r *Run, p *packages.Package, decls map[string]*ast.Fun
 		return false
 	}
 	nb := 0
-	var judge func(body *ast.BlockStmt, label string, rootOnly bool)
-	classify := func(list []ast.Stmt) string {
-		blk := &ast.BlockStmt{List: list}
-		switch {
-		case isCall(blk, "newReachCursor") != nil:
-			return "descends into the component"
-		}
-		merged, flagged := false, false
-		ast.Inspect(blk, func(n ast.Node) bool {
-			switch x := n.(type) {
-			case *ast.CallExpr:
-				if sel, ok := ast.Unparen(x.Fun).(*ast.SelectorExpr); ok && sel.Sel.Name == "Or" && len(x.Args) == 1 {
-					merged = true
-				}
-			case *ast.AssignStmt:
-				for i, l := range x.Lhs {
-					if sel, ok := ast.Unparen(l).(*ast.SelectorExpr); ok && gate != nil {
-						if s := info.Selections[sel]; s != nil && s.Obj() == gate && i < len(x.Rhs) {
-							if tv := info.Types[x.Rhs[i]]; tv.Value != nil && tv.Value.ExactString() == "true" {
-								flagged = true
+	// classify: what a sequence of leaf statements does for the cursor
+	classify := func(leaves []ast.Node) string {
+		descends, merged, flagged := false, false, false
+		for _, leaf := range leaves {
+			if isCompoundLeaf(leaf) {
+				continue // may run zero times
+			}
+			ast.Inspect(leaf, func(n ast.Node) bool {
+				switch x := n.(type) {
+				case *ast.FuncLit:
+					return false
+				case *ast.CallExpr:
+					if fn := calleeOf(info, x); fn != nil && fn.Name() == "newReachCursor" {
+						descends = true
+					}
+					if sel, ok := ast.Unparen(x.Fun).(*ast.SelectorExpr); ok && sel.Sel.Name == "Or" && len(x.Args) == 1 {
+						merged = true
+					}
+				case *ast.AssignStmt:
+					for i, l := range x.Lhs {
+						if sel, ok := ast.Unparen(l).(*ast.SelectorExpr); ok && gate != nil {
+							if s := info.Selections[sel]; s != nil && s.Obj() == gate && i < len(x.Rhs) {
+								if tv := info.Types[x.Rhs[i]]; tv.Value != nil && tv.Value.ExactString() == "true" {
+									flagged = true
+								}
 							}
 						}
 					}
 				}
-			}
-			return true
-		})
+				return true
+			})
+		}
 		switch {
+		case descends:
+			return "descends into the component"
 		case merged:
 			return "merges the component's cached reach"
 		case flagged:
@@ -313,31 +377,36 @@ func checkReachSearchLoop(r *Run, p *packages.Package, decls map[string]*ast.Fun
 		}
 		return ""
 	}
-	judge = func(body *ast.BlockStmt, label string, rootOnly bool) {
-		// a body that is a single if/else: judge its arms
-		if len(body.List) == 1 {
-			if inner, ok := body.List[0].(*ast.IfStmt); ok {
-				judge(inner.Body, label+"/then", rootOnly)
-				switch e := inner.Else.(type) {
-				case *ast.BlockStmt:
-					judge(e, label+"/else", rootOnly)
-				case *ast.IfStmt:
-					judge(&ast.BlockStmt{List: []ast.Stmt{e}}, label+"/else", rootOnly)
-				default:
-					// no else: when the condition is false nothing happens
-					judge(&ast.BlockStmt{Lbrace: inner.End(), Rbrace: inner.End()}, label+"/else-missing", rootOnly)
-				}
-				return
-			}
-		}
+	// judge: every way through the branch does one of the three
+	judge := func(body *ast.BlockStmt, label string, rootOnly bool) {
 		nb++
 		construct := "componentReachDFS:" + label
-		if what := classify(body.List); what != "" {
-			r.Pass("C15-R3-cache-complete-reach", construct, body.Pos(), "%s", what)
-		} else if rootOnly {
+		paths, complete := structuredPaths(info, r.Fset, body.List, 256)
+		if !complete {
+			r.Undecide("C15-R3: too many paths through %s", label)
+			return
+		}
+		var whats []string
+		bad := ""
+		for _, pth := range paths {
+			what := classify(pth.Leaves)
+			if what == "" && bad == "" {
+				bad = strings.Join(pth.Taken, ", ")
+				if bad == "" {
+					bad = "unconditionally"
+				}
+			}
+			if what != "" && !containsStr(whats, what) {
+				whats = append(whats, what)
+			}
+		}
+		switch {
+		case bad == "":
+			r.Pass("C15-R3-cache-complete-reach", construct, body.Pos(), "on each of its %d paths the branch %s", len(paths), strings.Join(whats, " / "))
+		case rootOnly:
 			r.Pass("C15-R3-cache-complete-reach", construct, body.Pos(), "only the root cursor gets here; its reach is the search's visited set and is complete when the search ends")
-		} else {
-			r.Fail("C15-R3-cache-complete-reach", construct, body.Pos(), "this branch skips an adjacent component without descending into it, merging its cached reach, or marking the cursor: the cursor's reach then lacks what that component reaches, is cached as the component's reach, and a later query for it is answered with too small a set (the answer depends on which node was asked first)")
+		default:
+			r.Fail("C15-R3-cache-complete-reach", construct, body.Pos(), "on the path [%s] this branch skips an adjacent component without descending into it, merging its cached reach, or marking the cursor: the cursor's reach then lacks what that component reaches, is cached as the component's reach, and a later query for it is answered with too small a set (the answer depends on which node was asked first)", bad)
 		}
 	}
 	cur := chain.Else
